@@ -392,6 +392,7 @@ def setitem(I, a, idx, val):
                 # as it stands before this store
                 og, vm = val.buf.get, val.imap
                 val = SArr(val.shape, (lambda og, vm: (lambda q: og(vm(tuple(q)))))(og, vm), val.kind, tag='frozen')
+            _check_assignable(I, val.shape, v.shape)
             vv = broadcast_to(val.frozen(), v.shape)
             v.write_where(lambda q: True, lambda q: vv.get(q))
         elif isinstance(val, (list, tuple)):
@@ -401,6 +402,35 @@ def setitem(I, a, idx, val):
             v.write_where(lambda q: True, lambda q: val)
         return True
     raise Unsupported('fancy index assignment')
+
+
+def _check_assignable(I, src, dst):
+    """numpy raises ValueError when a value cannot be broadcast to the shape it is assigned to: trailing axes must agree or
+    be 1 in the value; extra leading axes of the value must be 1"""
+    if I is None or getattr(I, 'pure', False):
+        return
+    src, dst = list(src), list(dst)
+    while len(src) > len(dst):
+        s0 = src.pop(0)
+        if is_sym(s0):
+            if I.ctx.branch(sym.ne(s0, 1)):
+                raise PyExc('ValueError')
+        elif s0 != 1:
+            raise PyExc('ValueError')
+    off = len(dst) - len(src)
+    for k, s_ in enumerate(src):
+        d_ = dst[off + k]
+        if not is_sym(s_) and s_ == 1:
+            continue
+        if is_sym(s_) or is_sym(d_):
+            bad = sym.And(sym.ne(s_, d_), sym.ne(s_, 1))
+            if is_sym(bad):
+                if I.ctx.branch(bad):
+                    raise PyExc('ValueError')
+            elif bad:
+                raise PyExc('ValueError')
+        elif s_ != d_:
+            raise PyExc('ValueError')
 
 
 def broadcast_to(a, shape):
